@@ -126,7 +126,14 @@ Definition importance (n : nat) (T : list (list Q)) (lap : list Q) : list Q :=
                                           else if (g <? f)%nat then tget T g f else 0) (seq 0 n))))
       (seq 0 n).
 
-(* np.argsort(-importance): descending importance, ties by index (stable) *)
+(* np.argsort(-importance): descending importance.  The MODEL breaks ties by
+   index (insertion of seq 0 n from the right keeps equal scores in increasing
+   index order).  NumPy does NOT promise that: np.argsort's default kind is
+   quicksort (introsort / vectorised sorts in NumPy 2), which is not stable,
+   so on tied importance scores the code's order of the tied features is
+   unspecified.  The correspondence check therefore generates pairwise
+   distinct importance scores only (harness/props/c17.py LIMITS); on ties the
+   model describes one of the orders the code may take. *)
 Fixpoint ins_desc (imp : list Q) (x : nat) (l : list nat) : list nat :=
   match l with
   | [] => [x]
